@@ -40,6 +40,8 @@ LitVal == ("i2" :> <<2, 1>>) @@ ("f2.0" :> <<2, 1>>) @@ ("s2" :> <<2, 1>>) @@ ("
           @@ ("q1/2" :> <<1, 2>>) @@ ("f0.5" :> <<1, 2>>) @@ ("s0.5" :> <<5, 10>>) @@ ("s1/2" :> <<1, 2>>)
           @@ ("s-2/4" :> <<0 - 2, 4>>) @@ ("i0" :> <<0, 1>>) @@ ("f1.0" :> <<1, 1>>) @@ ("i-3" :> <<0 - 3, 1>>)
           @@ ("q6/4" :> <<6, 4>>) @@ ("f1.5" :> <<3, 2>>)
+          \* strings whose value is integral but whose text int() does not accept: still the canonical Int
+          @@ ("s2.0" :> <<2, 1>>) @@ ("s4/2" :> <<4, 2>>) @@ ("s20e-1" :> <<2, 1>>) @@ ("s-3." :> <<0 - 3, 1>>)
 NONE == "NoneType:None"
 NaryC == {"And", "Or", "Plus", "Times"}
 BinC == {"Implies", "Iff", "Minus", "Div", "LE", "LT", "GE", "GT", "Equals"}
